@@ -33,7 +33,7 @@ NONDET_DENY = ('std::time::', 'std::env::', 'std::thread::', 'std::process::', '
                'std::collections::hash', 'std::hash::random', 'std::random', 'core::time', 'std::io::stdin',
                'std::sync::', 'core::sync::', 'std::ptr::', 'core::ptr::')
 RNG_ALLOW = ('alea::f64', 'alea::u64', 'alea::i64_in_range', 'alea::f32', 'alea::u32', 'alea::i32_in_range',
-             'alea::u64_less_than', 'alea::f64_in_range', 'alea::u64_in_range')
+             'alea::u64_less_than', 'alea::i64_less_than', 'alea::f64_in_range', 'alea::u64_in_range')
 
 
 def run(prog, rep, tier, repo):
